@@ -12,7 +12,7 @@ An *input* is a dict:
   window  : None | ("-a"|"-b", text, instant_ns)
   as_dir  : bool  (pass the directory instead of the files; PathId order = sorted names)
 """
-import datetime, gzip, lzma, os, re, subprocess, time
+import datetime, gzip, lzma, os, re, struct, subprocess, time
 from concurrent.futures import ThreadPoolExecutor
 import vlib
 
@@ -20,22 +20,27 @@ EPOCH0 = 1577880000          # 2020-01-01T12:00:00Z
 DAY_NS = 86400 * 10**9
 OFFSETS = [0, 0, 60, -330, 345, -480, 840, -720]      # minutes
 DELTAS_US = [0, 0, 0, 0, 0, 1, 1, 2, 999, 1000, 999999, 1000000, 1000001, 60000000]
+SUB_US_NS = [0, 0, 0, 0, 1, 10, 100, 990, 999, 900]   # increments below one microsecond (ns)
 WORDS = ["alpha", "beta", "gamma", "delta", "kernel", "daemon", "started", "stopped", "link", "up",
          "down", "session", "opened", "closed", "for", "user", "root", "error", "warning", "ok"]
-TOKEN = re.compile(rb"\bs(\d\d)m(\d{4})\b")
+TOKEN = re.compile(rb"\bs(\d\d)m(\d{4})\b|\but_pid (\d{6})\b")
+UTMP_PID0 = 100000
 
 
-def render_ts(inst_ns, off_min):
-    assert inst_ns % 1000 == 0
-    sec, us = divmod(inst_ns // 1000, 10**6)
+def render_ts(inst_ns, off_min, frac=6):
+    """ISO text of the instant (nanoseconds since the epoch) at UTC offset off_min, with `frac`
+    fractional digits (6..9); the instant must be representable with that many digits"""
+    gran = 10 ** (9 - frac)
+    assert 6 <= frac <= 9 and inst_ns % gran == 0
+    sec, ns = divmod(inst_ns, 10**9)
     loc = datetime.datetime(1970, 1, 1) + datetime.timedelta(seconds=sec + off_min * 60)
     sign = "+" if off_min >= 0 else "-"
     a = abs(off_min)
-    return "%s.%06d%s%02d:%02d" % (loc.strftime("%Y-%m-%dT%H:%M:%S"), us, sign, a // 60, a % 60)
+    return "%s.%0*d%s%02d:%02d" % (loc.strftime("%Y-%m-%dT%H:%M:%S"), frac, ns // gran, sign, a // 60, a % 60)
 
 
 def msg_lines(sid, pos, m, rng_words):
-    first = "%s s%02dm%04d %s" % (render_ts(m["inst"], m["off"]), sid, pos, " ".join(rng_words[:3]))
+    first = "%s s%02dm%04d %s" % (render_ts(m["inst"], m["off"], m.get("frac", 6)), sid, pos, " ".join(rng_words[:3]))
     out = [first]
     for c in range(m["cont"]):
         out.append("    continued %s %s" % (rng_words[(3 + c) % len(rng_words)], "x" * (1 + c)))
@@ -43,7 +48,7 @@ def msg_lines(sid, pos, m, rng_words):
 
 
 def gen_input(rng, nsrc, maxmsg, allow_unsorted=True, allow_window=True, allow_container=True,
-              allow_dir=True, opts_choices=None, big=False, allow_junk=True):
+              allow_dir=True, opts_choices=None, big=False, allow_junk=True, allow_utmp=True):
     base = EPOCH0 * 10**9
     window = None
     emptied = set()
@@ -70,12 +75,16 @@ def gen_input(rng, nsrc, maxmsg, allow_unsorted=True, allow_window=True, allow_c
         if sid in emptied:
             t += window[3]
         file_off = rng.choice(OFFSETS) if rng.random() < 0.5 else None
+        # one notation per file: 6..9 fractional digits; s4 orders by nanoseconds
+        frac = rng.choice([6, 6, 6, 7, 8, 9, 9])
+        gran = 10 ** (9 - frac)
+        t += (rng.choice(SUB_US_NS) // gran) * gran
         msgs = []
         for k in range(n):
-            t += rng.choice(DELTAS_US) * 1000
+            t += rng.choice(DELTAS_US) * 1000 + (rng.choice(SUB_US_NS) // gran) * gran
             off = file_off if file_off is not None else rng.choice(OFFSETS)
             cont = 0 if rng.random() < 0.85 else rng.randrange(1, 3)
-            msgs.append(dict(inst=t, off=off, cont=cont))
+            msgs.append(dict(inst=t, off=off, cont=cont, frac=frac))
         kind = "sorted"
         if unsorted_ok and n >= 2 and rng.random() < 0.15:
             kind = "unsorted"
@@ -86,23 +95,108 @@ def gen_input(rng, nsrc, maxmsg, allow_unsorted=True, allow_window=True, allow_c
         container = "plain"
         if allow_container and rng.random() < 0.12:
             container = rng.choice(["gz", "xz"])
-        if allow_junk and nsrc >= 2 and rng.random() < 0.06:
+        if allow_utmp and window is None and rng.random() < 0.12:
+            # an accounting-record source (Linux utmp, 384-byte records): s4 prints its records in
+            # time order whatever their physical order; the physically last record is usually NOT
+            # the newest.  Times are distinct inside the file (microsecond precision).
+            kind, container = "utmp", "utmp"
+            n = min(n, 12)
+            tt = base + rng.choice([0, 0, 1000, 1000000]) * 1000
+            msgs = []
+            for k in range(n):
+                tt += rng.choice([1, 1, 2, 999, 1000, 999999, 1000000, 1000001]) * 1000
+                msgs.append(dict(inst=tt, off=0, cont=0))
+            phys = list(range(n))
+            rng.shuffle(phys)
+            if n >= 2 and rng.random() < 0.8 and phys[n - 1] == n - 1:
+                phys[0], phys[n - 1] = phys[n - 1], phys[0]
+            for k, m in enumerate(msgs):          # msgs stay in time (= printed) order
+                m["phys"] = phys[k]
+        if allow_junk and kind != "utmp" and nsrc >= 2 and rng.random() < 0.06:
             # a failing source: no line carries a timestamp (FileInfo(err), FileSummary)
             kind, msgs = "junk", []
         sources.append(dict(sid=sid, msgs=msgs, kind=kind, container=container))
-    # names: argument order is a random permutation of name order unless passed as a directory
     as_dir = allow_dir and rng.random() < 0.1
+    assign_names(rng, sources, as_dir)
+    opts = list(rng.choice(opts_choices or [["-n"]]))
+    return dict(sources=sources, opts=opts, window=window, as_dir=as_dir)
+
+
+def assign_names(rng, sources, as_dir):
+    """names: argument order is a random permutation of name order unless passed as a directory"""
+    nsrc = len(sources)
     order = list(range(nsrc))
     if not as_dir:
         rng.shuffle(order)
     tag = rng.choice(["s", "log", "x-"])
     for argpos, s in enumerate(sources):
-        ext = {"plain": ".log", "gz": ".log.gz", "xz": ".log.xz"}[s["container"]]
+        ext = {"plain": ".log", "gz": ".log.gz", "xz": ".log.xz", "utmp": ".wtmp"}[s["container"]]
         s["name"] = "%s%02d%s" % (tag, order[argpos], ext)
     if as_dir:
         sources.sort(key=lambda s: s["name"])
-    opts = list(rng.choice(opts_choices or [["-n"]]))
-    return dict(sources=sources, opts=opts, window=window, as_dir=as_dir)
+
+
+def subus_input(rng, nsrc, nanchors, opts_choices=None, allow_dir=True):
+    """Instants that differ only BELOW the microsecond across sources: timestamps with 7, 8 or 9
+    fractional digits; around each anchor (a whole microsecond, several anchors inside one
+    millisecond) every source has a message at anchor + eps with eps < 1 us; in most anchors eps
+    DEcreases with the argument position (the later-named source holds the earlier message, 1 ns /
+    10 ns / 999 ns apart), mixed with exact ties (equal eps) and random eps."""
+    base = EPOCH0 * 10**9 + rng.choice([0, 123456000, 999999000])
+    fracs = [rng.choice([9, 9, 9, 8, 7, 6]) for _ in range(nsrc)]
+    if all(f == 6 for f in fracs):
+        fracs[-1] = 9
+    offs = [rng.choice(OFFSETS) for _ in range(nsrc)]
+    srcs = [[] for _ in range(nsrc)]
+    t = base
+    for a in range(nanchors):
+        t += rng.choice([1000, 1000, 2000, 5000, 1000000])          # next anchor: >= 1 us later
+        mode = rng.choice(["desc", "desc", "desc", "tie", "rand", "asc"])
+        ladder = sorted(rng.sample([0, 1, 2, 10, 11, 100, 500, 990, 998, 999], min(nsrc, 10)), reverse=True)
+        while len(ladder) < nsrc:
+            ladder.append(0)
+        for i in range(nsrc):
+            if rng.random() < 0.15:
+                continue                                            # this source has nothing at this anchor
+            gran = 10 ** (9 - fracs[i])
+            if mode == "desc":
+                eps = ladder[i]
+            elif mode == "asc":
+                eps = ladder[nsrc - 1 - i]
+            elif mode == "tie":
+                eps = rng.choice([0, 999, 990, 900])
+            else:
+                eps = rng.choice(SUB_US_NS + [1, 999])
+            eps = (eps // gran) * gran
+            srcs[i].append(t + eps)
+            d = (rng.choice([0, 1, 10]) // gran) * gran
+            if rng.random() < 0.2 and eps + d < 1000:               # intra-source: same microsecond again
+                srcs[i].append(t + eps + d)
+    sources = []
+    for i in range(nsrc):
+        if not srcs[i]:
+            srcs[i].append(t + 1000)
+        msgs = [dict(inst=x, off=offs[i] if rng.random() < 0.8 else rng.choice(OFFSETS), cont=0, frac=fracs[i]) for x in srcs[i]]
+        sources.append(dict(sid=i, msgs=msgs, kind="sorted", container="plain"))
+    as_dir = allow_dir and rng.random() < 0.1
+    assign_names(rng, sources, as_dir)
+    return dict(sources=sources, opts=list(rng.choice(opts_choices or [["-n"]])), window=None, as_dir=as_dir, subus=True)
+
+
+def subus_inversions(inp):
+    """number of cross-source pairs inside one microsecond whose nanosecond order is the reverse of
+    the argument order (the later-named source holds the earlier message)"""
+    buckets = {}
+    for i, l in enumerate(instants(inp)):
+        for x in l:
+            buckets.setdefault(x // 1000, []).append((i, x))
+    n = 0
+    for b in buckets.values():
+        for (i, x) in b:
+            for (j, y) in b:
+                if i < j and y < x:
+                    n += 1
+    return n
 
 
 def in_window(inp, m):
@@ -115,6 +209,16 @@ def in_window(inp, m):
 def write_input(inp, d, seed_words):
     os.makedirs(d, exist_ok=True)
     for s in inp["sources"]:
+        if s["kind"] == "utmp":
+            recs = sorted(s["msgs"], key=lambda m: m["phys"])
+            with open(os.path.join(d, s["name"]), "wb") as f:
+                for m in recs:
+                    sec, ns = divmod(m["inst"], 10**9)
+                    pid = UTMP_PID0 + s["sid"] * 1000 + m["phys"]
+                    m["lines"] = None
+                    f.write(struct.pack("<hxxi32s4s32s256shhiii4i20s", 7, pid, b"pts/%d" % m["phys"], b"t%d" % (m["phys"] % 100),
+                                        b"user%d" % s["sid"], b"host%d" % s["sid"], 0, 0, 0, sec, ns // 1000, 0, 0, 0, 0, b""))
+            continue
         lines = []
         for pos, m in enumerate(s["msgs"]):
             w = [WORDS[(seed_words + s["sid"] * 7 + pos * 3 + k) % len(WORDS)] for k in range(6)]
@@ -197,10 +301,13 @@ def expected_stdout(inp):
         s = inp["sources"][i]
         pos, m = vis[i][k]
         order.append((i, k))
-        pre = prefix_for(inp, s, m)
-        for ln in m["lines"]:
-            out.append(pre + ln.encode() + b"\n")
-    return b"".join(out), order
+        if m.get("lines") is None:
+            out = None            # record rendering is not modelled here: order only
+        if out is not None:
+            pre = prefix_for(inp, s, m)
+            for ln in m["lines"]:
+                out.append(pre + ln.encode() + b"\n")
+    return (b"".join(out) if out is not None else None), order
 
 
 def observed_order(inp, stdout):
@@ -211,15 +318,33 @@ def observed_order(inp, stdout):
         k = 0
         for pos, m in enumerate(s["msgs"]):
             if in_window(inp, m):
-                vispos[(s["sid"], pos)] = k
+                vispos[(s["sid"], m["phys"] if s["kind"] == "utmp" else pos)] = k
                 k += 1
     obs = []
     for ln in stdout.split(b"\n"):
         mt = TOKEN.search(ln)
         if mt:
-            sid, pos = int(mt.group(1)), int(mt.group(2))
+            if mt.group(3):
+                sid, pos = divmod(int(mt.group(3)) - UTMP_PID0, 1000)
+            else:
+                sid, pos = int(mt.group(1)), int(mt.group(2))
             obs.append((sid2arg.get(sid, 99), vispos.get((sid, pos), 9999)))
     return obs
+
+
+def tokens_of(stdout):
+    """the message tokens of stdout in order (used by replays that compare the order only)"""
+    return [mt.group(0).decode() for ln in stdout.split(b"\n") for mt in [TOKEN.search(ln)] if mt]
+
+
+def expected_tokens(inp):
+    vis = [[(pos, m) for pos, m in enumerate(s["msgs"]) if in_window(inp, m)] for s in inp["sources"]]
+    out = []
+    for (i, k) in kway_merge(instants(inp)):
+        s = inp["sources"][i]
+        pos, m = vis[i][k]
+        out.append("ut_pid %d" % (UTMP_PID0 + s["sid"] * 1000 + m["phys"]) if s["kind"] == "utmp" else "s%02dm%04d" % (s["sid"], pos))
+    return out
 
 
 CODE = {"I": 0, "M": 1, "S": 2, "E": 3}
@@ -307,6 +432,7 @@ def describe(inp):
     if inp.get("fixture"):
         return dict(argv=argv(inp), fixture=True, paths=list(inp["paths"]))
     return dict(argv=argv(inp), window=inp["window"][:2] if inp["window"] else None, as_dir=inp["as_dir"],
+                physically_last_record_not_newest=[s["name"] for s in inp["sources"] if s["kind"] == "utmp" and s["msgs"] and max(m["phys"] for m in s["msgs"]) != s["msgs"][-1]["phys"]],
                 sources=[dict(name=s["name"], kind=s["kind"], container=s["container"], messages=len(s["msgs"]),
                               in_window=sum(1 for m in s["msgs"] if in_window(inp, m))) for s in inp["sources"]])
 
@@ -332,8 +458,12 @@ def save_failure(prop, seed, inp, plan, exp_bytes, n, extra=None):
     save_input(inp, ind)
     # the rendering depends on the directory (-p prepends the path): render for the saved copy
     exp_bytes = expected_stdout(dict(inp, dir=ind))[0]
-    with open(os.path.join(dest, "EXPECTED_STDOUT"), "wb") as f:
-        f.write(exp_bytes)
+    if exp_bytes is not None:
+        with open(os.path.join(dest, "EXPECTED_STDOUT"), "wb") as f:
+            f.write(exp_bytes)
+    import json
+    with open(os.path.join(dest, "EXPECTED_TOKENS.json"), "w") as f:
+        json.dump(expected_tokens(inp), f)
     c = dict(dir=dest, argv=argv(dict(inp, dir=ind)), plan=plan, describe=describe(inp))
     if extra:
         c.update(extra)
@@ -369,13 +499,22 @@ def replay_failures(prop, path, repeats=1):
                 print("replay: %d distinct outputs across plans" % len(outs))
                 bad += 1
             continue
-        expb = open(os.path.join(c["dir"], "EXPECTED_STDOUT"), "rb").read()
+        pe = os.path.join(c["dir"], "EXPECTED_STDOUT")
+        expb = open(pe, "rb").read() if os.path.exists(pe) else None
+        expt = json.load(open(os.path.join(c["dir"], "EXPECTED_TOKENS.json"))) if expb is None else None
         for plan in plans:
             for k in range(repeats):
                 env = {"TZ": "UTC"}
                 if plan:
                     env["S4_VERIF_PLAN"] = plan
                 rc, out, err = vlib.run_s4(c["argv"], timeout=60, env=env)
+                if expb is None:
+                    same = (rc == 0 and tokens_of(out) == expt)
+                    print("replay plan=%s rc=%d message order %s expected (%d vs %d messages)  argv=%s" % (
+                        plan, rc, "==" if same else "!=", len(tokens_of(out)), len(expt), " ".join(c["argv"])))
+                    if not same:
+                        bad += 1
+                    continue
                 same = (rc == 0 and out == expb)
                 print("replay plan=%s rc=%d stdout %s expected (%d vs %d bytes)  argv=%s" % (
                     plan, rc, "==" if same else "!=", len(out), len(expb), " ".join(c["argv"])))
@@ -465,7 +604,8 @@ def corpus_inputs(prop):
         n = len(c["sources"])
         srcs = []
         for argpos, l in enumerate(c["sources"]):
-            msgs = [dict(inst=EPOCH0 * 10**9 + us * 1000, off=off, cont=cont) for us, off, cont in l]
+            msgs = [dict(inst=EPOCH0 * 10**9 + e[0] * 1000 + (e[3] if len(e) > 3 else 0), off=e[1], cont=e[2],
+                         frac=(e[4] if len(e) > 4 else 6)) for e in l]
             kind = "sorted" if all(a["inst"] <= b["inst"] for a, b in zip(msgs, msgs[1:])) else "unsorted"
             srcs.append(dict(sid=argpos, msgs=msgs, kind=kind, container="plain", name="c%02d.log" % (n - 1 - argpos)))
         out.append(dict(sources=srcs, opts=list(c["opts"]), window=None, as_dir=False, corpus=c["name"]))
